@@ -38,6 +38,12 @@ struct Shared {
 }
 /// (from, to): MPC messages on this link are handed over only when the rest of the system has stopped moving (C12, server level)
 static SLOW: Mutex<Option<(usize, usize)>> = Mutex::new(None);
+/// the MPC message links go DOWN (every `msg` call fails, in every direction) once this many MPC messages have been delivered in the scenario
+static LINK_DOWN_AFTER: Mutex<Option<usize>> = Mutex::new(None);
+/// the FIRST notification this party sends to its destination arrives (is recorded) but the call reports an error (the response was lost)
+static OUTPUT_FLAKY: Mutex<Option<usize>> = Mutex::new(None);
+/// parties one of whose `msg` calls has failed because the links are down
+static LINK_FAILED: Mutex<Vec<usize>> = Mutex::new(Vec::new());
 #[derive(Clone)]
 struct Cl { sh: Arc<Shared>, me: usize }
 impl PolicyClientBuilder for Cl { type Client = Cl; fn new_client(&self, _p: &Policy) -> Cl { self.clone() } }
@@ -63,6 +69,7 @@ impl PolicyClient for Cl {
     async fn consts(&self, to: usize, req: ConstsRequest) -> Result<(), E> { self.gate(to, "consts").await?; let r = m(self.sh.handles.get().unwrap()[to].consts(req).await); self.reply_gate(to, "consts-reply").await; r }
     async fn msg(&self, to: usize, msg: MpcMsg) -> Result<(), E> {
         if *SLOW.lock().unwrap() == Some((self.me, to)) { let (tx, rx) = oneshot::channel(); self.sh.held.lock().unwrap().push_back((to, msg, tx)); return rx.await.unwrap_or_else(|_| Err(E("slow link dropped".into()))); }
+        if let Some(k) = *LINK_DOWN_AFTER.lock().unwrap() { if self.sh.msgs.load(Ordering::SeqCst) >= k { let mut f = LINK_FAILED.lock().unwrap(); if !f.contains(&self.me) { f.push(self.me); } return Err(E("link down".into())); } }
         self.sh.msgs.fetch_add(1, Ordering::SeqCst); m(self.sh.handles.get().unwrap()[to].mpc_msg(msg).await) }
     async fn output(&self, _to: Url, result: Result<Literal, OutputError>) -> Result<(), E> {
         let s = match result { Ok(l) => format!("Ok({l})"), Err(OutputError::Cancelled) => "Cancelled".to_string(), Err(e) => format!("Err({})", e.to_string().chars().take(60).collect::<String>()) };
@@ -71,6 +78,7 @@ impl PolicyClient for Cl {
         self.sh.events.lock().unwrap().push(format!("output {} {s}", self.me)); self.sh.outputs.lock().unwrap().push((self.me, s));
         // batches: the completed delivery takes its place in the global sequence of actor steps
         { let snap: Vec<usize> = SEMS.lock().unwrap().iter().map(|s| s.available_permits()).collect(); OBS2.lock().unwrap().push((self.sh.idb + self.me, "OutputDelivered".into(), String::new(), String::new(), snap)); }
+        { let mut f = OUTPUT_FLAKY.lock().unwrap(); if *f == Some(self.me) { *f = None; return Err(E("response lost".into())); } }
         Ok(())
     }
 }
@@ -127,7 +135,7 @@ async fn explore2(s: &Sys, r: &mut Rng, fail: Option<(&'static str, usize)>, mut
 /// a coordination RPC (kind, from, to) that the explorer does not release while this is set
 static HOLD: Mutex<Option<(&'static str, usize, usize)>> = Mutex::new(None);
 #[derive(Debug, Clone)]
-enum Inject { Cancel(usize), MsgSelf(usize), MsgOob(usize), DupSchedule(usize, bool), StrayRun(usize), StrayConsts(usize), StrayValidate(usize), RescheduleWith(usize, &'static str), LateSchedule(usize) }
+enum Inject { Cancel(usize), MsgSelf(usize), MsgOob(usize), DupSchedule(usize, bool), DupScheduleOob(usize, usize), StrayRun(usize), StrayConsts(usize), StrayValidate(usize), RescheduleWith(usize, &'static str), LateSchedule(usize) }
 /// a party whose own schedule call is NOT issued at the start of the scenario but by `Inject::LateSchedule` (its prepared policy waits in `LATE_POLICY`)
 static LATE: Mutex<Option<usize>> = Mutex::new(None);
 static LATE_POLICY: Mutex<Option<Policy>> = Mutex::new(None);
@@ -152,6 +160,10 @@ async fn do_inject(s: &Sys, inj: Inject, log: &mut Vec<String>) {
         Inject::LateSchedule(p) => { let pol = LATE_POLICY.lock().unwrap().take().expect("late policy prepared"); let h = s.handles[p].clone();
             *LATE_TASK.lock().unwrap() = Some(tokio::spawn(async move { tokio::time::timeout(Duration::from_secs(20), h.schedule(pol)).await })); "scheduled".to_string() }
         Inject::RescheduleWith(p, prog) => { let n = s.handles.len(); let pol = policy(n, p, LEADER.load(Ordering::SeqCst), true, id, prog, false);
+            format!("{:?}", tokio::time::timeout(t, s.handles[p].schedule(pol)).await.map(|r| r.map_err(|e| format!("{e:?}").chars().take(60).collect::<String>()))) }
+        // a duplicate schedule whose policy names an out-of-range party (variant 0), leader (1) or both (2)
+        Inject::DupScheduleOob(p, variant) => { let n = s.handles.len(); let mut pol = policy(n, p, LEADER.load(Ordering::SeqCst), true, id, if n == 2 { P2 } else { P3 }, false);
+            if variant != 1 { pol.party = 9; } if variant != 0 { pol.leader = 9; }
             format!("{:?}", tokio::time::timeout(t, s.handles[p].schedule(pol)).await.map(|r| r.map_err(|e| format!("{e:?}").chars().take(60).collect::<String>()))) }
         Inject::DupSchedule(p, illtyped) => { let n = s.handles.len(); let pol = policy(n, p, LEADER.load(Ordering::SeqCst), true, id, if illtyped { "pub fn main(a: u8) -> u8 { a + true }" } else if n == 2 { P2 } else { P3 }, false);
             format!("{:?}", tokio::time::timeout(t, s.handles[p].schedule(pol)).await.map(|r| r.map_err(|e| format!("{e:?}").chars().take(60).collect::<String>()))) }
@@ -357,6 +369,22 @@ async fn main() {
                     if !bad.is_empty() { failures.push(json!({"witness": "C14:dup-schedule-consts-window", "failure": bad, "case": json!({"n": n, "leader": leader, "program": "two const suppliers (0, 2)", "held": "consts 2->1", "log": o.log})})); }
                     continue;
                 }
+                // corpus: a duplicate schedule that names an out-of-range party / leader index, while the computation is under way (injected once the run
+                // request is held back at a follower, i.e. everybody is validated; victim = the waiting follower or the leader)
+                if (16..28).contains(&case) {
+                    let (n, leader) = (2usize, case % 2); let fol = 1 - leader; let variant = ((case - 16) / 2) % 3; let victim = if case < 22 { fol } else { leader }; let outs = vec![true; 2];
+                    // the follower is parked before its run request; the leader (which awaits the run replies inside its schedule handler) is hit once the run request has gone through
+                    if victim == fol { *HOLD.lock().unwrap() = Some(("run", leader, fol)); } let mut done = false;
+                    let o = scenario(n, leader, &outs, false, &vec![P2; n], &vec![leader; n], 1, &mut r, None, move |step, idle| if !done && ((victim == fol && idle >= 3) || (victim != fol && step >= 2)) { done = true; *HOLD.lock().unwrap() = None; Some(Inject::DupScheduleOob(victim, variant)) } else { None }).await; execs += 1;
+                    *HOLD.lock().unwrap() = None; correspond(&mut m, &o, None, &mut disagreements, &mut steps);
+                    *dist.entry("inject:DupSchedule-with-out-of-range-indices".into()).or_default() += 1; distinct.insert(format!("dup-oob {leader} {variant} {victim}"));
+                    let want = expected_prog(n, P2); let mut bad = vec![]; let reply = o.log.iter().skip_while(|l| !l.starts_with("inject@")).nth(1).cloned().unwrap_or_default();
+                    if !reply.contains("Ok(Err(") { bad.push(format!("the duplicate schedule was not answered with an error: {reply}")); }
+                    for p in 0..n { let got: Vec<&String> = o.outputs.iter().filter(|(q, _)| *q == p).map(|(_, s)| s).collect(); if got != vec![&want] { bad.push(format!("party {p} destination got {got:?}, want one {want}")); } }
+                    if o.finished.iter().any(|f| !f) { bad.push(format!("state machines not stopped: {:?}", o.finished)); } if o.panicked.iter().any(|p| *p) { bad.push("actor panicked".into()); }
+                    if !bad.is_empty() { failures.push(json!({"witness": "C14:dup-schedule-out-of-range-indices", "failure": bad, "case": json!({"n": n, "leader": leader, "victim": victim, "out_of_range": (["party", "leader", "party and leader"][variant]), "log": o.log})})); }
+                    continue;
+                }
                 // corpus: the leader's validate reaches a follower that has not been scheduled yet (it is held back: ValidateRequested); a SECOND validate
                 // arrives (invalid for that state: answered with an error); then the follower is scheduled. The computation must complete.
                 // corpus: a constants request WITH a payload from an unknown party reaches a follower that has been scheduled but not validated yet (it accepts
@@ -475,6 +503,23 @@ async fn main() {
                     if !bad.is_empty() { failures.push(json!({"witness": "C15:cancel-while-waiting", "failure": bad, "case": json!({"n": n, "leader": leader, "victim": victim, "state": what, "reply": reply, "log": o.log})})); }
                     continue;
                 }
+                // corpus: a destination whose FIRST answer is lost (the notification arrives, the call reports an error): however cancel ends, the destination
+                // must not be notified twice
+                if (14..18).contains(&case) {
+                    let k = case - 14; let (n, leader) = (2usize, k % 2); let fol = 1 - leader; let outs = vec![true; 2];
+                    let (held, victim, what) = if k / 2 == 0 { (("validate", leader, fol), fol, "follower-awaiting-validation") } else { (("run", leader, fol), fol, "follower-awaiting-run") };
+                    *HOLD.lock().unwrap() = Some(held); *OUTPUT_FLAKY.lock().unwrap() = Some(victim); let mut done = false;
+                    let o = scenario(n, leader, &outs, false, &vec![P2; n], &vec![leader; n], 1, &mut r, None, move |_step, idle| if !done && idle >= 3 { done = true; Some(Inject::Cancel(victim)) } else { None }).await; execs += 1;
+                    *HOLD.lock().unwrap() = None; *OUTPUT_FLAKY.lock().unwrap() = None;
+                    *dist.entry(format!("mode:cancel-{what}-destination-answer-lost")).or_default() += 1; distinct.insert(format!("cancel-flaky {what} {leader}"));
+                    let reply = o.log.iter().skip_while(|l| !l.starts_with("inject")).nth(1).cloned().unwrap_or_default(); let ok = reply.contains("Ok(Ok(()))");
+                    let got: Vec<String> = o.outputs.iter().filter(|(q, _)| *q == victim).map(|(_, s)| s.clone()).collect(); let mut bad = vec![];
+                    if got.len() > 1 { bad.push(format!("the destination was notified {} times: {got:?} (cancel returned {})", got.len(), if ok { "Ok" } else { "an error" })); }
+                    if ok && got.len() != 1 { bad.push(format!("cancel returned Ok, the destination holds {got:?}")); }
+                    if !o.finished[victim] { bad.push("state machine of the cancelled party still running".to_string()); }
+                    if !bad.is_empty() { failures.push(json!({"witness": "C15:cancel-flaky-destination", "failure": bad, "case": json!({"n": n, "leader": leader, "victim": victim, "state": what, "reply": reply})})); }
+                    continue;
+                }
                 let at = r.below(6) as usize; let after_idle = r.below(12); let victim = r.below(n as u64) as usize; let mut done = false;
                 let use_fast = r.bool(); let yields = r.below(40) as usize; let total_steps = 2 * (n - 1) + if consts { n - 1 } else { 0 }; let at_fast = 1 + r.below(total_steps as u64) as usize; let mut done2 = false;
                 let o = scenario2(n, leader, &outs, consts, &vec![prog; n], &vec![leader; n], 1, &mut r, None,
@@ -582,6 +627,25 @@ async fn main() {
                     if dest { for p in 0..n { let got: Vec<&String> = o.outputs.iter().filter(|(q, _)| *q == p).map(|(_, s)| s).collect(); if got.len() != 1 || !got[0].starts_with("Err(") { bad.push(format!("party {p} destination got {got:?}, want one error notification")); } } }
                     if !bad.is_empty() { failures.push(json!({"witness": "C17:compile-error-end", "failure": bad, "case": json!({"n": n, "leader": leader, "destinations": dest, "constant_announced_as": "M", "program_reads": "PARTY_0::K", "outputs": o.outputs, "log": o.log})})); }
                     if samples.len() < 3 { samples.push(json!({"compile_error_end": {"leader": leader, "permits": o.permits, "outputs": o.outputs}})); }
+                    continue;
+                }
+                // corpus: the MPC message links go down in both directions after k delivered messages (k from 1 to the middle of the protocol): the MPC of every
+                // party must END with an error (a concurrent send/receive exchange whose send has failed must not wait for the peer's half, which will never
+                // come), the destinations are notified, the state machines stop and the leader's permit is back
+                if case >= 20 && case < 28 {
+                    let (n, leader, dest) = (2usize, case % 2, case % 4 < 2); let outs = vec![dest; 2]; let k = [1usize, 3, 8, 20][(case - 20) / 2];
+                    *LINK_DOWN_AFTER.lock().unwrap() = Some(k); LINK_FAILED.lock().unwrap().clear();
+                    let o = scenario(n, leader, &outs, false, &vec![P2; n], &vec![leader; n], 1, &mut r, None, |_, _| None).await; execs += 1;
+                    *LINK_DOWN_AFTER.lock().unwrap() = None; let failed: Vec<usize> = LINK_FAILED.lock().unwrap().clone();
+                    *dist.entry("end:mpc-links-down".into()).or_default() += 1; *dist.entry(format!("links-down:parties-with-a-failed-send:{}", failed.len())).or_default() += 1; distinct.insert(format!("links-down {leader} {dest} {k}"));
+                    // the claim is about the CALLER of a failed call: a party that was only waiting to receive when its peer went away has observed nothing (it waits on; not claimed)
+                    let mut bad = vec![];
+                    if failed.is_empty() { bad.push("no msg call failed although the links went down (the scenario did not reach the MPC?)".to_string()); }
+                    for &p in &failed { if !o.finished[p] { bad.push(format!("party {p}: a msg call of it failed, but its state machine is still running (finished {:?})", o.finished)); }
+                        if o.permits[p] != 1 { bad.push(format!("party {p}: permits after its policy ended: {}, budget 1", o.permits[p])); }
+                        if dest { let got: Vec<&String> = o.outputs.iter().filter(|(q, _)| *q == p).map(|(_, s)| s).collect(); if got.len() != 1 || !got[0].starts_with("Err(") { bad.push(format!("party {p}'s destination got {got:?}, want one error notification")); } } }
+                    if o.panicked.iter().any(|p| *p) { bad.push("actor panicked".into()); }
+                    if !bad.is_empty() { failures.push(json!({"witness": "C17:mpc-links-down", "failure": bad, "case": json!({"n": n, "leader": leader, "destinations": dest, "links_down_after_messages": k, "parties_with_a_failed_send": failed, "mpc_messages_delivered": o.msgs, "outputs": o.outputs, "finished": o.finished, "permits": o.permits})})); }
                     continue;
                 }
                 // corpus: the LEADER's own input literal has the wrong type: its run ends with `InvalidInput` after validation (its followers wait for an
